@@ -151,7 +151,11 @@ class CallMixin:
             if p not in vals:
                 vals[p] = self.eval(d, st, clo.module)[0][2]
         ordered = [vals[p] for p in params if p in vals]
-        return self.state_call(st, name, ordered)
+        tag = self.cfg.summary_result_tags.get(name)
+        outs = self.state_call(st, name, ordered)
+        if tag:
+            outs = [(k, s, self.unbox(s, v.v, tag) if k == 'ok' else v) for k, s, v in outs]
+        return outs
 
     # ---- inlining -------------------------------------------------------------------------------------------------------------
     def inline(self, st, clo, args, body_override=None):
@@ -260,6 +264,13 @@ class CallMixin:
                 if not args.static() or args.kw:
                     raise Unsupported('keyword/dynamic args to summarised constructor ' + cname)
                 return self.state_call(st, self.cfg.summaries[cname], pos)
+            if not args.static():
+                # constructor with dynamic *args / **kwargs: the new object is a pure function of the boxed arguments
+                s = st.fork()
+                posb, kwb = self.box_args(s, args)
+                t = fn('new!' + cname.replace('.', '_'), R, R, R)(posb, kwb)
+                s.add(Z.klass(t) == self.cls_const(cname), t != Z.NONE, z3.Not(Z.is_int(t)), z3.Not(Z.is_str(t)), z3.Not(Z.is_tuple(t)))
+                return [('ok', s, sv_ref(t, 'inst:' + cname))]
             s = st.fork()
             fields = {}
             is_exc = cname in self.facts.class_names and self.facts.issub(cname, 'BaseException')
@@ -584,6 +595,17 @@ class CallMixin:
             a, b = args.pos
             return [('ok', st, SV('int', z3.If(a.v >= b.v, a.v, b.v)))]
         return self.prim(st, 'max', list(args.pos))
+
+    def b_assume(self, st, args):
+        """spec-only: restrict the statement to the paths on which the condition holds"""
+        res = []
+        for kind, s, c in self.truth(st, args.pos[0]):
+            if kind != 'ok':
+                continue
+            s = s.fork(); s.add(c)
+            if self.feasible(s):
+                res.append(('ok', s, NONE_SV))
+        return res
 
     def b_same(self, st, args):
         """spec-only: structural identity (sequences element-wise identical; references identical)"""
